@@ -7,8 +7,8 @@ import (
 	"fmt"
 	"io"
 	"os"
-	"path/filepath"
 	"os/exec"
+	"path/filepath"
 	"runtime"
 	"strings"
 	"sync"
@@ -139,7 +139,7 @@ type Pool struct {
 	Bin    string // worker binary (default: this executable)
 	Mode   string // "plain" or "chroot"
 	Race   bool
-	Dir    string // scratch dir (created); for chroot the worker confines itself to it
+	Dir    string   // scratch dir (created); for chroot the worker confines itself to it
 	Env    []string // further environment of the worker process (e.g. GOMAXPROCS=1: a process that starts on one CPU)
 	cmd    *exec.Cmd
 	stdin  io.WriteCloser
